@@ -524,6 +524,44 @@ def execute(spec, fault, bump):
                         measurables.append(cls(m["name"], m["t"], m["amount"], pop_names=m["pops"]))
                     else:
                         measurables.append(cls(m["name"], m["t"], m["threshold"], pop_names=m["pops"]))
+                # ---- the documented meaning of every measurable, probed directly on the baseline model (both sides of
+                # every threshold), independently of where the optimiser happens to walk
+                if base_model is None:
+                    with seams.patched():
+                        seams.patch(amodel.Model, "process", orig_process)
+                        base_model = P.run_sim(parset, progset, instructions).model
+                all_pops = [p.name for p in base_model.pops]
+                for m in mspecs:
+                    pops_variants = [m["pops"]]
+                    if len(all_pops) > 1:
+                        pops_variants.append(all_pops[:1])  # a strict subset, whatever the problem itself selected
+                        pops_variants.append(all_pops[1:])
+                    for psel in pops_variants:
+                        try:
+                            v = ref_measurable_value(base_model, m["name"], m["t"], psel)
+                        except Exception:
+                            continue
+                        probes = [
+                            (at.MinimizeMeasurable(m["name"], m["t"], pop_names=psel), None, v),
+                            (at.MaximizeMeasurable(m["name"], m["t"], pop_names=psel), None, -v),
+                            (at.Measurable(m["name"], m["t"], pop_names=psel, weight=2.5), None, 2.5 * v),
+                        ]
+                        if v > 0:
+                            for f in (0.5, 1.5):
+                                probes.append((at.AtMostMeasurable(m["name"], m["t"], v * f, pop_names=psel), None, math.inf if v > v * f else 0.0))
+                                probes.append((at.AtLeastMeasurable(m["name"], m["t"], v * f, pop_names=psel), None, math.inf if v < v * f else 0.0))
+                            for amt in (0.0, 0.5):
+                                probes.append((at.IncreaseByMeasurable(m["name"], m["t"], amt, pop_names=psel), v, math.inf if 1.0 < 1 + amt else 0.0))
+                                probes.append((at.DecreaseByMeasurable(m["name"], m["t"], amt, pop_names=psel), v, math.inf if 1.0 > 1 - amt else 0.0))
+                        for obj, bl, exp in probes:
+                            try:
+                                got = float(obj.eval(base_model, obj.get_baseline(base_model)))
+                            except Exception as e:
+                                violate("objective_evaluation_raises", f"optimization.py:{type(obj).__name__}", {"exception": f"{type(e).__name__}: {str(e)[:200]}", "measurable": m["name"], "pops": psel})
+                                continue
+                            if not close(got, exp):
+                                violate("objective_not_the_documented_sum", f"optimization.py:{type(obj).__name__}", {"measurable": {"name": m["name"], "t": m["t"], "pops": psel}, "got": got, "expected": exp, "value_over_requested_pops": v})
+                        bump("probe:measurable_semantics_probed", len(probes))
                 constraints = None
                 if spec["constraint"]:
                     c = spec["constraint"]
